@@ -862,7 +862,12 @@ func (g *ArtGen) skippedCarrier(kind string) {
 	case "textarea":
 		g.w(`<textarea>` + t(3) + `</textarea>`)
 	case "noscript":
-		g.w(`<noscript>` + t(3) + `</noscript>`)
+		if g.P.AttrNoise && g.r.Chance(1, 2) {
+			// the fallback markup of a lazy-loading widget: for the parser this is one piece of text
+			g.w(`<noscript><img src="/ns.png" onerror="zn()" id="zni" class="znc" style="color:red"><style>p{color:red}</style>` + t(2) + `</noscript>`)
+		} else {
+			g.w(`<noscript>` + t(3) + `</noscript>`)
+		}
 	case "svg":
 		g.w(`<svg width="10" height="10"><text x="0" y="10">` + t(2) + `</text><title>` + t(1) + `</title></svg>`)
 	case "object":
